@@ -39,7 +39,9 @@ class ReportWriter:
         result.tags.extend(test.tags)
         result.properties.update(test.properties)
         result.links.extend(test.links)
-        result.rank = test.rank
+        # tests sharing the same rank (the tests generated from a parametrized test do) are ordered as they are in their suite
+        siblings = test.parent_suite.get_tests() if test.parent_suite else [test]
+        result.rank = (test.rank, next((idx for idx, sibling in enumerate(siblings) if sibling is test), 0))
         result.start_time = start_time
         return result
 
